@@ -920,6 +920,11 @@ fn main() {
                     if bad.is_empty() { "ok".into() } else { bad.join("; ") }
                 }
             }
+            "trace_on" => {
+                fjall::verif::trace_enable(true);
+                "ok".into()
+            }
+            "trace_take" => format!("[{}]", fjall::verif::trace_take().join(",")),
             "rmfile" => match std::fs::remove_file(a[0]) {
                 Ok(()) => "ok".into(),
                 Err(e) => format!("err:{:?}", e.kind()),
